@@ -4,10 +4,12 @@
      accept loop      Accept k | AcceptErr e ... LoopReturn v      (wg.Wait + return)
      connection k     NewSvc k ; AssignerOk k | AssignerFail k ; StartSrv k ; (WaitStatus) SrvExit k st ;
                       Finish k ; ConnDone k                          (deferred wg.Done)
-     watcher of k     StopSrv k                                      (<-sctx.Done(); srv.Stop())
-   The inner jrpc2 server is abstract and obeys C08/C10: it exits only after a cause (Stop was called, its
-   peer closed, its transport failed) and after its handlers returned, with a status naming a cause that
-   occurred, and by then it has closed its channel exactly once.
+     inner server k   SrvStop k st                                   (the server's stop: the FIRST cause to reach it)
+   The inner jrpc2 server is abstract and obeys C08/C10: it stops once, for the first cause that reaches it
+   while it runs (SrvStop k StStopped: the watcher's srv.Stop() after <-sctx.Done(); StClosed: the reader
+   sees the peer's close; StFailed: the reader's Recv fails) - later causes change nothing -, it exits
+   (WaitStatus returns) only after its handlers returned, with the status of that first cause, and by then
+   it has closed its channel exactly once.
    Environment labels: Accept/AcceptErr (the accepter), CtxEnd, PeerClose k, PeerFail k, CallStart k /
    CallEnd k (a handler of connection k is entered / returns).
 
@@ -23,7 +25,7 @@ Inductive label :=
 | Accept (k : nat) | AcceptErr (e : aerr) | CtxEnd
 | PeerClose (k : nat) | PeerFail (k : nat) | CallStart (k : nat) | CallEnd (k : nat)
 | NewSvc (k : nat) | AssignerOk (k : nat) | AssignerFail (k : nat) | StartSrv (k : nat)
-| StopSrv (k : nat) | SrvExit (k : nat) (st : status)
+| SrvStop (k : nat) (st : status) | SrvExit (k : nat) (st : status)
 | Finish (k : nat) | ConnDone (k : nat) | LoopReturn (v : retv).
 
 Inductive phase :=
@@ -32,6 +34,7 @@ Inductive phase :=
 | PAssigned                (* Assigner returned an assigner *)
 | PFailed                  (* Assigner failed (channel closed by Loop) *)
 | PRunning                 (* server started; goroutine in WaitStatus *)
+| PStopping (st : status)  (* the server has stopped for cause st (the first one); handlers may still run *)
 | PExited (st : status)    (* WaitStatus returned st *)
 | PFinished (st : status)  (* Finish returned *)
 | PDoneOk (st : status)    (* wg.Done after Finish *)
@@ -42,7 +45,6 @@ Record conn := mkConn {
   c_svc : option nat;      (* the instance this connection's newService call returned *)
   c_asg : option nat;      (* the assigner that instance's Assigner returned (assigner of instance i = i) *)
   c_used : option nat;     (* the assigner the server of this connection was constructed with *)
-  c_stop : bool;           (* Stop has been called on the server *)
   c_pclosed : bool;        (* the peer closed the connection *)
   c_pfailed : bool;        (* the transport failed *)
   c_busy : nat             (* handlers of this connection's server that have not returned *)
@@ -69,7 +71,7 @@ Inductive obs :=
 | OReturn (v : retv).
 
 Definition init (f10 : bool) : state := mkState [] 0 [] [] 0 Accepting false f10.
-Definition new_conn : conn := mkConn PAccepted None None None false false false 0.
+Definition new_conn : conn := mkConn PAccepted None None None false false 0.
 
 Fixpoint upd_nth {A} (k : nat) (f : A -> A) (l : list A) : list A :=
   match l, k with
@@ -97,32 +99,34 @@ Definition set_ctx (b : bool) (s : state) : state :=
   mkState (conns s) (next_svc s) (finish_log s) (closed_conns s) (wg s) (acc s) b (fix_F10 s).
 
 Definition with_phase (p : phase) (c : conn) : conn :=
-  mkConn p (c_svc c) (c_asg c) (c_used c) (c_stop c) (c_pclosed c) (c_pfailed c) (c_busy c).
+  mkConn p (c_svc c) (c_asg c) (c_used c) (c_pclosed c) (c_pfailed c) (c_busy c).
 Definition with_svc (i : nat) (c : conn) : conn :=
-  mkConn PHasSvc (Some i) (c_asg c) (c_used c) (c_stop c) (c_pclosed c) (c_pfailed c) (c_busy c).
+  mkConn PHasSvc (Some i) (c_asg c) (c_used c) (c_pclosed c) (c_pfailed c) (c_busy c).
 Definition with_asg (c : conn) : conn :=
-  mkConn PAssigned (c_svc c) (c_svc c) (c_used c) (c_stop c) (c_pclosed c) (c_pfailed c) (c_busy c).
+  mkConn PAssigned (c_svc c) (c_svc c) (c_used c) (c_pclosed c) (c_pfailed c) (c_busy c).
 Definition with_started (c : conn) : conn :=
-  mkConn PRunning (c_svc c) (c_asg c) (c_asg c) (c_stop c) (c_pclosed c) (c_pfailed c) (c_busy c).
-Definition with_stop (c : conn) : conn :=
-  mkConn (c_phase c) (c_svc c) (c_asg c) (c_used c) true (c_pclosed c) (c_pfailed c) (c_busy c).
+  mkConn PRunning (c_svc c) (c_asg c) (c_asg c) (c_pclosed c) (c_pfailed c) (c_busy c).
 Definition with_pclosed (c : conn) : conn :=
-  mkConn (c_phase c) (c_svc c) (c_asg c) (c_used c) (c_stop c) true (c_pfailed c) (c_busy c).
+  mkConn (c_phase c) (c_svc c) (c_asg c) (c_used c) true (c_pfailed c) (c_busy c).
 Definition with_pfailed (c : conn) : conn :=
-  mkConn (c_phase c) (c_svc c) (c_asg c) (c_used c) (c_stop c) (c_pclosed c) true (c_busy c).
+  mkConn (c_phase c) (c_svc c) (c_asg c) (c_used c) (c_pclosed c) true (c_busy c).
 Definition with_busy (n : nat) (c : conn) : conn :=
-  mkConn (c_phase c) (c_svc c) (c_asg c) (c_used c) (c_stop c) (c_pclosed c) (c_pfailed c) n.
+  mkConn (c_phase c) (c_svc c) (c_asg c) (c_used c) (c_pclosed c) (c_pfailed c) n.
 
 Definition retv_of (e : aerr) : retv := match e with EClosing => RNil | EOther => RErr end.
 Definition retv_eqb (a b : retv) : bool := match a, b with RNil, RNil | RErr, RErr => true | _, _ => false end.
 
-(* a cause for the exit status st has occurred *)
-Definition cause (c : conn) (st : status) : bool :=
-  match st with StStopped => c_stop c | StClosed => c_pclosed c | StFailed => c_pfailed c end.
+Definition status_eq_dec : forall a b : status, {a = b} + {a <> b}.
+Proof. decide equality. Defined.
 
-(* a server that accepts new requests: running and no cause has reached it *)
+(* the cause st is present and can reach a running server: the context has ended (the watcher calls Stop),
+   the peer has closed, the transport has failed *)
+Definition trigger (ctx : bool) (c : conn) (st : status) : bool :=
+  match st with StStopped => ctx | StClosed => c_pclosed c | StFailed => c_pfailed c end.
+
+(* a server that accepts new requests: running, with its peer still there *)
 Definition alive (c : conn) : bool :=
-  match c_phase c with PRunning => negb (c_stop c || c_pclosed c || c_pfailed c) | _ => false end.
+  match c_phase c with PRunning => negb (c_pclosed c || c_pfailed c) | _ => false end.
 
 Definition step (s : state) (l : label) : option (state * list obs) :=
   match l with
@@ -197,10 +201,10 @@ Definition step (s : state) (l : label) : option (state * list obs) :=
                   end
       | None => None
       end
-  | StopSrv k =>
+  | SrvStop k st =>
       match get s k with
       | Some c => match c_phase c with
-                  | PRunning => if ctx_done s && negb (c_stop c) then Some (set_conn k with_stop s, []) else None
+                  | PRunning => if trigger (ctx_done s) c st then Some (set_conn k (with_phase (PStopping st)) s, []) else None
                   | _ => None
                   end
       | None => None
@@ -208,9 +212,10 @@ Definition step (s : state) (l : label) : option (state * list obs) :=
   | SrvExit k st =>
       match get s k with
       | Some c => match c_phase c, c_busy c with
-                  | PRunning, 0 => if cause c st
-                                   then Some (set_closed (closed_conns s ++ [k]) (set_conn k (with_phase (PExited st)) s), [])
-                                   else None
+                  | PStopping st0, 0 =>
+                      if status_eq_dec st st0
+                      then Some (set_closed (closed_conns s ++ [k]) (set_conn k (with_phase (PExited st)) s), [])
+                      else None
                   | _, _ => None
                   end
       | None => None
@@ -264,12 +269,9 @@ Definition conn_enabled (hooks : bool) (ctx : bool) (k : nat) (c : conn) : list 
   | PHasSvc => [AssignerOk k; AssignerFail k]
   | PAssigned => [StartSrv k]
   | PRunning =>
-      (if ctx && negb (c_stop c) then [StopSrv k] else []) ++
-      (match c_busy c with
-       | 0 => filter (fun l => match l with SrvExit _ st => cause c st | _ => false end)
-                     [SrvExit k StStopped; SrvExit k StClosed; SrvExit k StFailed]
-       | S _ => []
-       end)
+      filter (fun l => match l with SrvStop _ st => trigger ctx c st | _ => false end)
+             [SrvStop k StStopped; SrvStop k StClosed; SrvStop k StFailed]
+  | PStopping st => match c_busy c with 0 => [SrvExit k st] | S _ => [] end
   | PExited _ => if hooks then [] else [Finish k]
   | PFinished _ | PFailed => [ConnDone k]
   | PDoneOk _ | PDoneFail => []
